@@ -140,7 +140,9 @@ SOURCES = ['ro-sep', 'ro-sep', 'combo-dro', 'combo-dro', 'combo-ro', 'prog', 'lp
 MISUSE = ['cross_st', 'cross_add', 'cross_mul_rvar', 'cross_add_rvar', 'foreign_set_forall', 'foreign_amb_forall',
           'foreign_supp', 'foreign_expt', 'foreign_prob', 'foreign_amb_objective', 'second_objective', 'nonscalar_objective',
           'read_unsolved', 'read_failed', 'ambiguity_after_constraints', 'foreign_adapt', 'foreign_set_minmax',
-          'foreign_amb_forall_explin', 'foreign_amb_forall_exppw', 'cross_concat', 'concat_dvar_rvar', 'foreign_adapt_ldr']
+          'foreign_amb_forall_explin', 'foreign_amb_forall_exppw', 'cross_concat', 'concat_dvar_rvar', 'foreign_adapt_ldr',
+          'cross_maxof', 'cross_matmul_rvar', 'cross_st_cone', 'cross_st_piecewise', 'foreign_second_in_list', 'call_unsolved',
+          'cross_kldiv']
 
 
 def gen_case(seed, cfg):
@@ -235,7 +237,8 @@ def gen_misuse(rng, models, state):
     order = list(MISUSE)
     rng.shuffle(order)
     if rng.random() < 0.6:      # kinds with narrow preconditions first
-        rare = ['second_objective', 'foreign_adapt_ldr', 'foreign_amb_forall', 'foreign_amb_forall_explin', 'foreign_amb_forall_exppw', 'foreign_set_forall', 'foreign_amb_objective', 'foreign_expt', 'foreign_prob',
+        rare = ['second_objective', 'foreign_adapt_ldr', 'cross_maxof', 'cross_matmul_rvar', 'cross_st_cone', 'cross_st_piecewise',
+                'foreign_second_in_list', 'cross_kldiv', 'foreign_amb_forall', 'foreign_amb_forall_explin', 'foreign_amb_forall_exppw', 'foreign_set_forall', 'foreign_amb_objective', 'foreign_expt', 'foreign_prob',
                 'foreign_supp', 'ambiguity_after_constraints', 'read_failed', 'foreign_adapt']
         rng.shuffle(rare)
         order = rare + [k for k in order if k not in rare]
@@ -280,6 +283,44 @@ def gen_misuse(rng, models, state):
                 a_rv = have(A, sa, [n for n, _ in A['rvars']])
                 if a_rv:
                     return [dict(mk, op='expr', id='bad', e=['concat', ['v', pa + rng.choice(a_dv)], ['v', pa + rng.choice(a_rv)]], touch=[pa])]
+            if kind == 'cross_maxof' and a_dv and b_dv and A['kind'] in ('ro', 'dro') and B['kind'] in ('ro', 'dro'):
+                ea, eb = ['sum', ['v', pa + rng.choice(a_dv)]], ['sum', ['v', pb + rng.choice(b_dv)]]
+                pieces = [ea, eb] if rng.random() < 0.5 else [ea, ['c', 0.0], eb]
+                return [dict(mk, op='expr', id='bad', e=[rng.choice(['maxof', 'minof'])] + pieces)]
+            if kind == 'cross_matmul_rvar' and a_dv and b_rv and A['kind'] in ('ro', 'dro'):
+                xa = ['i', ['v', pa + rng.choice(a_dv)], [0, 1]]
+                zb = ['i', ['v', pb + rng.choice(b_rv)], [0, 1]]
+                return [dict(mk, op='expr', id='bad', e=['@', xa, zb] if rng.random() < 0.5 else ['@', zb, xa])]
+            if kind == 'cross_kldiv' and a_dv and b_dv and A['kind'] in ('ro', 'gcp') and B['kind'] in ('ro', 'gcp'):
+                na, nb = dict(A['dvars'])[a_dv[0]], dict(B['dvars'])[b_dv[0]]
+                if na == nb and na > 1:
+                    return [dict(mk, op='call', obj=['v', pa + a_dv[0]], meth='kldiv', args=[['v', pb + b_dv[0]], 0.1], to='bad')]
+            if kind == 'cross_st_cone' and pa + 'm' in sa['built'] and b_dv and A['kind'] not in ('lp',) and \
+                    B['kind'] in ('ro', 'socp', 'gcp'):
+                xb = ['v', pb + rng.choice([n_ for n_ in b_dv if n_ != 'y'] or b_dv)]        # y may be 2-D
+                ce = rng.choice([['<=', ['norm', xb, 2], ['c', 50.0]], ['<=', ['f', 'sumsqr', xb], ['c', 50.0]],
+                                 ['<=', ['f', 'abs', xb], ['c', 50.0]], ['<=', ['norm', xb, 1], ['c', 50.0]],
+                                 ['<=', ['pnorm', xb, 3, 'soc'], ['c', 50.0]]] +
+                                ([['<=', ['f', 'exp', xb], ['c', 50.0]], ['>=', ['f', 'log', ['+', xb, ['c', 60.0]]], ['c', 0.0]]]
+                                 if B['kind'] in ('ro', 'gcp') else []))
+                o = dict(mk, op='st', m=pa + 'm', ids=['tmpk'])
+                if A['kind'] in ('lp', 'socp', 'gcp'):
+                    o['aslist'] = True
+                return [{'op': 'cons', 'id': 'tmpk', 'e': ce, 'task': pb, 'env': 1}, o]
+            if kind == 'cross_st_piecewise' and pa + 'm' in sa['built'] and b_dv and A['kind'] in ('ro', 'dro') and B['kind'] in ('ro', 'dro'):
+                xb = ['sum', ['v', pb + rng.choice(b_dv)]]
+                ce = ['<=', ['maxof', xb, ['c', 0.0]], ['c', 50.0]]
+                if B['kind'] == 'dro' and rng.random() < 0.5:
+                    ce = ['<=', ['E', ['maxof', xb, ['c', 0.0]]], ['c', 50.0]]
+                return [{'op': 'cons', 'id': 'tmpk', 'e': ce, 'task': pb, 'env': 1}, dict(mk, op='st', m=pa + 'm', ids=['tmpk'])]
+            if kind == 'foreign_second_in_list' and a_amb and b_rv:
+                a_rv = have(A, sa, [n for n, _ in A['rvars']])
+                if a_rv:
+                    own = ['<=', ['f', 'abs', ['v', pa + a_rv[0]]], ['c', 3.0]]
+                    foreign = ['<=', ['f', 'abs', ['v', pb + rng.choice(b_rv)]], ['c', 1.0]]
+                    return [dict(mk, op='supp', amb=pa + a_amb[0], scen=None, set=[own, foreign])]
+            if kind == 'call_unsolved' and not sa.get('ever_solved') and a_dv and A['kind'] in ('ro', 'dro', 'lp', 'socp', 'gcp'):
+                return [dict(mk, op='get', e=['sum', ['v', pa + rng.choice(a_dv)]], how='call', touch=[pa])]
             if kind == 'cross_mul_rvar' and a_dv and b_rv and A['kind'] not in ('lp', 'socp', 'gcp'):
                 return [dict(mk, op='expr', id='bad', e=['*', ['sum', ['v', pa + rng.choice(a_dv)]], ['i', ['v', pb + rng.choice(b_rv)], 0]])]
             if kind == 'cross_add_rvar' and a_dv and b_rv and A['kind'] not in ('lp', 'socp', 'gcp'):
@@ -406,6 +447,7 @@ def check_case(case, props):
     w = W.World()
     it = interp.Interp(rs, w)
     polluted = set()
+    skip_next_misuse = False
     last_task = None
     aborted = False
     with W.Bound(w, rs):
@@ -414,6 +456,9 @@ def check_case(case, props):
             if t != '-' and t != last_task:
                 stats['alternations'] += 1
                 last_task = t
+            if op.get('expect') == 'raise' and skip_next_misuse:
+                skip_next_misuse = False
+                continue
             rec = it.step(op)
             stats['events'] += 1
             if op.get('expect') == 'raise':
@@ -426,6 +471,10 @@ def check_case(case, props):
                     break
                 stats['misuse_rejected'][k] = stats['misuse_rejected'].get(k, 0) + 1
                 polluted.update(op.get('touch', [t]))
+                continue
+            if op.get('id') in ('tmpk', 'tmpc') and op['op'] == 'cons' and not rec['ok']:
+                skip_next_misuse = True        # the temporary object of a misuse could not be built: nothing to misuse
+                it.env.pop(op['id'], None)
                 continue
             if op['op'] in ('solve',) and op.get('env'):
                 if rec['ok'] and not op.get('fault') and rec['out']['sol'] == 'opt':
@@ -502,19 +551,23 @@ def sample_of(case):
 
 
 def shrink_candidates(case, viol):
+    """drop other misuse operations (together with the temporary object built for them), then environment events, then
+    everything after the failing misuse.  A temporary object and the misuse that consumes it are one unit."""
     ops = case['ops']
-    # drop misuse ops other than the failing kind, then env events
+
+    def is_tmp(o):
+        return o.get('id') in ('tmpk', 'tmpc') and o['op'] == 'cons'
     for i, op in enumerate(ops):
         if op.get('expect') == 'raise' and op.get('mis') not in viol.get('tags', []):
             c = copy.deepcopy(case)
-            del c['ops'][i]
+            lo = i - 1 if i > 0 and is_tmp(ops[i - 1]) else i
+            del c['ops'][lo:i + 1]
             yield c
     for i, op in enumerate(ops):
-        if op.get('env'):
+        if op.get('env') and not is_tmp(op):
             c = copy.deepcopy(case)
             del c['ops'][i]
             yield c
-    # truncate after the accepted misuse
     for i, op in enumerate(ops):
         if op.get('mis') in viol.get('tags', []) and i + 1 < len(ops):
             c = copy.deepcopy(case)
